@@ -10,7 +10,7 @@ from .. import common, gen, refparse, refmodel, workload, pools
 ID = "C11"
 LEVEL = "exploration"
 RULE = ("cases = generated 3D plotfiles (any layout) x recipes {user 2-arg one-component, 2-arg "
-        "multi-component, 3-arg with SolutionArray; as .py path and as callable; built-in "
+        "multi-component, 3-arg with SolutionArray (one- and multi-component); as .py path and as callable; built-in "
         "HRR/ENT/SRi/SDi/RRi on thermochemical plotfiles with drm19} x kept-field lists (none, "
         "one, several, unknown names, temp/Y kept with all-zero cells present) x {serial, "
         "parallel (pathos shim: in-process and fork+dill isolation)}; one evaluation = one cook "
@@ -21,7 +21,7 @@ ASSUMPTIONS = ["Cantera is trusted; built-ins compared at rtol 1e-9 against a fl
                "cells whose temp and mass fractions are all zero have no defined state: new "
                "fields are not judged there (kept fields and min/max rows are)",
                "pathos pool replaced by the M1 shim here; real pathos pools are driven by C12"]
-REQUIRED_OBS = {"cooked": 60, "recipe:user2": 10, "recipe:user2multi": 10, "recipe:user3": 2,
+REQUIRED_OBS = {"cooked": 60, "recipe:user2": 10, "recipe:user2multi": 10, "recipe:user3": 2, "recipe:user3multi": 2, "species_all": 1,
                 "recipe:HRR": 2, "recipe:ENT": 2, "recipe:SRi": 2, "recipe:SDi": 2, "recipe:RRi": 2,
                 "kept_nonempty": 20, "parallel": 20, "callable": 5, "cli_runs": 10}
 TIMEOUT = {"quick": 600, "thorough": 2400}
@@ -34,6 +34,9 @@ USER_RECIPES = {
                    '    return np.stack([arr[..., fi["f0"]] * 2.0, arr[..., fi["f1"]] - arr[..., fi["f0"]]], axis=-1)\n',
                    ["u_new", "v_new"]),
     "user3": ('def recipe(fi, arr, sol):\n    """rho_ct"""\n    return sol.density_mass\n', ["rho_ct"]),
+    "user3multi": ('import numpy as np\ndef recipe(fi, arr, sol):\n    """rho_ct cp_ct t_in"""\n'
+                   '    return np.stack([sol.density_mass, sol.cp_mass, arr[..., fi["temp"]] * 1.0], axis=-1)\n',
+                   ["rho_ct", "cp_ct", "t_in"]),
 }
 
 
@@ -109,6 +112,9 @@ def expected_new(kind, arr, names, P, sel):
     gas, sa, und = ref_state(arr, names, P)
     if kind == "user3":
         return [("rho_ct", sa.density_mass.reshape(shp))], und
+    if kind == "user3multi":
+        return [("rho_ct", sa.density_mass.reshape(shp)), ("cp_ct", sa.cp_mass.reshape(shp)),
+                ("t_in", arr[..., names.index("temp")] * 1.0)], und
     if kind == "HRR":
         return [("HeatRelease", sa.heat_release_rate.reshape(shp))], und
     if kind == "ENT":
@@ -299,11 +305,13 @@ def run_case(case, work, rec):
                    ("SRi", None, s3, None), ("SRi", "rhoh", s3, None),
                    ("SDi", None, s3[:2], None), ("SDi", "temp Y(H2)", s3[:2], None),
                    ("RRi", None, None, [0, 5, 17]), ("RRi", "density", None, [3]),
-                   ("user3", None, None, None), ("user3", "temp Y(O2) Y(N2)", None, None)]
+                   ("user3", None, None, None), ("user3", "temp Y(O2) Y(N2)", None, None),
+                   ("user3multi", None, None, None), ("user3multi", "Y(H2) density", None, None),
+                   ("SDi" if rng.random() < 0.5 else "SRi", None, "all", None)]
     modes = [("serial", None), ("parallel", "inproc"), ("parallel", "fork")]
     ci = 0
     for kind, kept, spsel, rxsel in configs:
-        for mode, iso in (modes if case["kind"] == "user" else [modes[ci % 3]]):
+        for mode, iso in (modes if case["kind"] == "user" else [modes[(ci + case["sel_seed"]) % 3]]):
             ci += 1
             as_callable = (ci % 3 == 0) and kind.startswith("user")
             P = rng.choice([1.0, 5.0]) if case["kind"] == "thermo" else None
@@ -326,7 +334,7 @@ def run_case(case, work, rec):
                         rec.count("callable")
                     else:
                         recipe = rp
-                    kw = dict(mech=MECH, pressure=P) if kind == "user3" else {}
+                    kw = dict(mech=MECH, pressure=P) if kind.startswith("user3") else {}
                     ch = Chef(plotfile=path, recipe=recipe, outfile=out, kept_fields=kept,
                               serial=(mode == "serial"), **kw)
                 else:
@@ -343,7 +351,9 @@ def run_case(case, work, rec):
                 rec.count("kept_nonempty")
             if mode == "parallel":
                 rec.count("parallel")
-            probs = judge(out, m, names, kind, kept_list, P, spsel or rxsel)
+            if spsel == "all":
+                rec.count("species_all")
+            probs = judge(out, m, names, kind, kept_list, P, (species() if spsel == "all" else spsel) or rxsel)
             if not probs and not taste_ok(out):
                 probs.append("validation (with box coordinates) rejects the cooked plotfile")
             if probs:
